@@ -414,6 +414,27 @@ def run(pid, tier):
                 canary_rejected += 1
             else:
                 raise ToolError('oracle vacuity: corruption %s was not rejected by %s (got %s)' % (r['id'], expect, sorted(got[r['id']])))
+    # recharge canaries: a budget of 0 and a station moved elsewhere must be rejected on a record that visits a station
+    rbase = next((r for r in recs if r['id'] not in failed_ids and any(a['type'] == 'recharge' for t in r['tours'] for a in t['flat'])), None)
+    if rbase is not None:
+        k = next(i for i, t in enumerate(rbase['tours']) if any(a['type'] == 'recharge' for a in t['flat']))
+        def rsh(r): t = r['tours'][k]; return r['vehicles'][t['vix'] - 1]['shifts'][t['shift'] - 1]
+        c1 = copy.deepcopy(rbase); c1['id'] = 'canary:recharge-budget-0'; rsh(c1)['recharge']['max'] = 0
+        c2 = copy.deepcopy(rbase); c2['id'] = 'canary:recharge-station-elsewhere'
+        for x in rsh(c2)['recharge']['stations']: x['loc'] = x['loc'] % c2['n'] + 1
+        rcans = [(c1, 'RechargeDistance'), (c2, 'ConditionalDistinct')]
+        cres = judge(pid + '-c', [c[0] for c in rcans])
+        got = collections.defaultdict(set)
+        for name, _, rid in cres.fails:
+            got[rid].add(name)
+        for r, expect in rcans:
+            canary_total += 1
+            if expect in got[r['id']]:
+                canary_rejected += 1
+            else:
+                raise ToolError('oracle vacuity: corruption %s was not rejected by %s (got %s)' % (r['id'], expect, sorted(got[r['id']])))
+    elif tier != 'quick' or len(rch_cases) > 100:
+        raise ToolError('no record with a recharge stop to bind RechargeDistance to')
     if canary_total < 6:
         raise ToolError('too few canaries applicable (%d)' % canary_total)
 
